@@ -3,12 +3,14 @@ package main
 import (
 	"encoding/json"
 	"flag"
+	"math"
 	"fmt"
 	"os"
 	"runtime"
 	"runtime/debug"
 	"runtime/pprof"
 	"sort"
+	"strconv"
 	"strings"
 	"time"
 )
@@ -45,6 +47,8 @@ func cmdRun(args []string) {
 	solver := fs.String("solver", "z3 -in", "solver command")
 	verbose := fs.Bool("v", false, "verbose")
 	prof := fs.String("cpuprofile", "", "write cpu profile")
+	params := fs.String("params", "", "harness parameters k=v,k=v (see vParam)")
+	estimate := fs.Int("estimate", 0, "estimate the number of paths from this many random probes instead of exploring")
 	fs.Parse(args)
 	if *prof != "" {
 		f, _ := os.Create(*prof)
@@ -61,10 +65,33 @@ func cmdRun(args []string) {
 	e.workers = *workers
 	e.solverArgv = strings.Fields(*solver)
 	e.loadKnown(verifRoot + "/known_findings.json")
+	if *params != "" {
+		e.params = map[string]int{}
+		for _, kv := range strings.Split(*params, ",") {
+			if i := strings.IndexByte(kv, '='); i > 0 {
+				n, _ := strconv.Atoi(kv[i+1:])
+				e.params[kv[:i]] = n
+			}
+		}
+	}
 	fmt.Fprintf(os.Stderr, "loaded in %.1fs\n", time.Since(t0).Seconds())
 	for _, name := range strings.Split(*hs, ",") {
+		e.paramSeen = nil
+		e.estimate = *estimate
 		h := e.RunHarness(name, *maxPaths, *timeout)
 		printRun(h, *verbose)
+		if *estimate > 0 && h.Paths > 0 {
+			n := float64(h.Paths)
+			mean := h.EstSum / n
+			sd := math.Sqrt(math.Max(0, h.EstSq/n-mean*mean) / n)
+			fmt.Printf("   ESTIMATE paths=%.0f stderr=%.0f probes=%d cpu_s_per_path=%.5f\n", mean, sd, h.Paths, h.Wall.Seconds()*float64(e.workers)/n)
+		}
+		var ps []string
+		for k, v := range e.paramSeen {
+			ps = append(ps, fmt.Sprintf("%s=%d/%d", k, v[0], v[1]))
+		}
+		sort.Strings(ps)
+		fmt.Printf("   params(value/default): %s\n", strings.Join(ps, ","))
 	}
 }
 
